@@ -883,6 +883,12 @@ found:
 			return eofError, nil
 		}
 		x.refill()
+		if !multiLineString && x.interactive && x.eof && x.line == "" {
+			// a backslash-newline continued the literal onto a line
+			// which has not been entered yet: more input is needed
+			x.SyntaxErrorf("unexpected EOF while parsing")
+			return eofError, nil
+		}
 	}
 foundEndOfString:
 	if byteString {
